@@ -114,6 +114,8 @@ m("C05-counts-adopted-early", ["C05", "C06"], "hexary.py",
   "            try:\n                yield memory_trie\n            finally:\n                if self.is_pruning:\n                    self._ref_count.clear()\n                    self._ref_count.update(batch_ref_count)\n")
 # Equivalent mutants (documented, not run): no listed property can observe them.
 EQUIVALENT = [
+    ("C15-shared-branch-list", "smt.py: SparseMerkleProof keeps the caller's list object instead of copying it - "
+     "aliasing of the constructor argument is not part of C15 (the proof still tracks the tree)"),
     ("C09-cache-stale-keep", "fog.py: TrieFrontierCache.add no longer pops the entry of the explored prefix - "
      "a memory-only effect, the prefix is never looked up again once explored"),
     ("C05-commit-order-reversed", "utils/db.py: commit loop iterates reversed(cache.items()) - the outer root "
@@ -284,3 +286,51 @@ m("C13-branch-tooshort-ok", ["C13"], "branches.py",
 m("C13-valid-assert-removed", ["C13"], "branches.py",
   "    assert BinaryTrie(db=db, root_hash=root_hash).get(key) == value\n    return True",
   "    BinaryTrie(db=db, root_hash=root_hash).get(key)\n    return True")
+
+# ---- C14 / C15 ------------------------------------------------------------------------
+m("C14-delete-blank", ["C14"], "smt.py",
+  "        return self.set(key, self._default)", "        return self.set(key, b\"\")")
+m("C14-sibling", ["C14"], "smt.py",
+  "            if path & target_bit:\n                node = sibling_node + node_hash\n            else:\n                node = node_hash + sibling_node",
+  "            if path & target_bit and target_bit != 4:\n                node = sibling_node + node_hash\n            else:\n                node = node_hash + sibling_node")
+m("C14-fromdb-default", ["C14"], "smt.py",
+  "        smt = cls(key_size=key_size, default=default)", "        smt = cls(key_size=key_size)")
+m("C14-calcroot-order", ["C14"], "smt.py",
+  "        if path & target_bit:\n            node_hash = keccak(sibling_node + node_hash)",
+  "        if path & target_bit and target_bit != 128:\n            node_hash = keccak(sibling_node + node_hash)")
+m("C14-proof-update-order", ["C14"], "smt.py",
+  "        return tuple(reversed(proof_update))", "        return tuple(proof_update)")
+m("C14-exists-blank", ["C14"], "smt.py",
+  "        if value == BLANK_NODE:\n            raise KeyError(\"Key does not exist\")\n\n        return value",
+  "        return value")
+m("C15-lencheck", ["C15"], "smt.py",
+  "            if len(node_updates) <= branch_point:", "            if len(node_updates) < branch_point:")
+m("C15-branchpoint", ["C15"], "smt.py",
+  "                    branch_point = (self._branch_size - 1) - bit",
+  "                    branch_point = max((self._branch_size - 1) - bit - 1, 0)")
+m("C15-ownkey-value", ["C15"], "smt.py",
+  "        if path_diff == 0:\n            self._value = value", "        if path_diff == 0:\n            pass")
+m("C15-update-before-check", ["C15"], "smt.py",
+  "            if len(node_updates) <= branch_point:\n                raise ValidationError(\"Updated node list is not deep enough\")\n",
+  "            if len(node_updates) <= branch_point:\n                self._branch[branch_point] = b\"\\x00\" * 32\n                raise ValidationError(\"Updated node list is not deep enough\")\n")
+
+# ---- C16 ------------------------------------------------------------------------------
+m("C16-oddflag", ["C16", "C02"], "utils/nibbles.py",
+  "                (flag + 1,),\n", "                (flag + 1 if flag else 3,),\n")
+m("C16-twobits-index", ["C16"], "utils/binaries.py",
+  "    padded_len = TWO_BITS.index(path[2:4])\n", "    padded_len = TWO_BITS.index(path[2:4]) if len(path) != 16 else 0\n")
+m("C16-parse-branch-len", ["C16"], "utils/nodes.py",
+  "        if len(node) != 65:", "        if len(node) < 65:")
+m("C16-parse-kv-len", ["C16"], "utils/nodes.py",
+  "        if len(node) <= 33:", "        if len(node) < 33:")
+m("C16-parse-leaf-empty", ["C16"], "utils/nodes.py",
+  "        if len(node) == 1:\n            raise InvalidNode(\"Invalid leaf node, can not contain empty value\")",
+  "        if len(node) == 0:\n            raise InvalidNode(\"Invalid leaf node, can not contain empty value\")")
+m("C16-decode-terminator", ["C16", "C01"], "utils/nibbles.py",
+  "    needs_terminator = flag in {HP_FLAG_2, HP_FLAG_2 + 1}", "    needs_terminator = flag in {HP_FLAG_2}")
+m("C16-nibbles-to-bytes", ["C16"], "utils/nibbles.py",
+  "NIBBLES_LOOKUPS = {byte: (byte >> 4, byte & 15) for byte in range(256)}",
+  "NIBBLES_LOOKUPS = {byte: (byte >> 4, byte & 15) for byte in range(256)}\nNIBBLES_LOOKUPS[0xfe] = (15, 15)")
+m("C16-unknown-type", ["C16"], "utils/nodes.py",
+  "    else:\n        raise InvalidNode(\"Unable to parse node\")",
+  "    else:\n        return LEAF_TYPE, None, node[1:]")
